@@ -5,11 +5,11 @@ from .eng_exec import tla_bytes
 
 # one representative byte per lexical class, plus chunks (DESIGN appendix A)
 SINGLES = [b"A", b"b", b"E", b"H", b"0", b"1", b"2", b"_", b"*", b":", b"?", b";", b",", b" ", b"\t", b"\n", b"+", b"-", b".",
-           b"#", b'"', b"'", b"(", b")", b"@", b"/", b"\x00", b"\xff"]
+           b"#", b'"', b"'", b"(", b")", b"@", b"/", b"\x00", b"\xff", b"\r"]
 CHUNKS = [b"AAAAAAAAAAA", b"111111111", b';"\x00\xfe']
 REDUCED = [b"A", b"E", b"1", b"0", b".", b"-", b"#", b"H", b"'", b";", b",", b" ", b"\n", b":", b"?", b"(", b")", b"\xff"]
 HDRS = [b"A", b"B", b"*", b":", b";", b"?", b" ", b"1", b","]
-REPS = [ord(c) for c in "Ab1_*:?;, \t\n+-.#\"'()@/E!"] + [0, 255]
+REPS = [ord(c) for c in "Ab1_*:?;, \t\n\r+-.#\"'()@/E!"] + [0, 255]
 
 BASES = [
     b"A", b"A?", b":A;B", b"*IDN?", b"AB:A 1", b"A 1,2;B 3", b"A -1.5e+3", b"A .5", b"A 5.", b"A +12E-2",
@@ -21,6 +21,7 @@ BASES = [
     b"A 1 ,2", b"A 1, 2", b"A 1 , 2 ;B", b"A ;B", b"A; B", b"A ; B", b"A\n", b"A \n", b"A?;B?\n", b"A? 1;*IDN?", b"A;",
     b"*IDN;:A", b"*A;AB:A?", b"A;*IDN;B 1", b"*IDN?;:SYST:ERR?",
     b"A 255", b"A 256", b"A 65536", b"A 32768", b"A 2147483648", b"A 4294967296", b"A 9223372036854775808", b"A 18446744073709551616", b"A -129,-32769",
+    b"A ON\r\n", b"A 1;B 'x'\r\n", b"A? #13abc \r\n", b"A (1)\x0c;B\r", b"A\r\n",
     b"SYST:ERR?", b"SYSTem:ERRor:NEXT?;COUN?", b":SYST:ERR:COUN?;:AB:A 'x',#11y,(z),Q,#H1,1 S,2",
     b"A 1;B 'two';E #13abc;H (4);A FIVE;B #H6;E 7 S",
 ]
